@@ -29,9 +29,20 @@ def main():
         if a.replay:
             with open(a.replay) as f:
                 rep = json.load(f)
+            print('replaying %s: clause=%s key=%s' % (a.replay, rep.get('clause'), rep.get('key')))
             rc = mod.replay(ctx, rep)
+            if rc in (0, 1) and getattr(mod, 'REPLAY_EXACT', False):
+                ctx.abort()
+                return rc
+            # generic replay: re-run the recorded tier / seed of the check against the current tree and report whether the same
+            # (clause, key) is reported again
             ctx.abort()
-            return rc
+            ctx2 = common.Ctx(pid, rep.get('tier', 'quick'), int(rep.get('seed', 0)))
+            ctx2.known = []                      # known findings do not hide anything in a replay
+            mod.run(ctx2)
+            same = [v for v in ctx2.violations if v[0] == rep.get('clause') and v[1] == rep.get('key')]
+            print('REPLAY %s: clause=%s key=%s (%d matching violation(s) on the current tree)' % ('REPRODUCED' if same else 'not reproduced', rep.get('clause'), rep.get('key'), len(same)))
+            return 1 if same else 0
         return mod.run(ctx)
     except common.MachineryError as ex:
         ctx.abort()
